@@ -1,3 +1,509 @@
-import Kurbo.Curve
+import Proofs.Lemmas.C08Path
+import Proofs.Lemmas.C08Mono
+import Proofs.Lemmas.Discharge
+/-! C08 – bounding boxes and extrema.
+
+    PROVED (about the model definitions of `Kurbo/Curve.lean` exactly as they are):
+
+    * extrema of a quadratic (`QuadBez.extrema`), any lawful scalar, unconditional:
+      `quad_extrema_sound`, `quad_extrema_complete`, `quad_extrema_iff` (exact characterisation),
+      `quad_extrema_sorted_le2`;
+    * extrema of a cubic (`CubicBez.extrema`), any lawful scalar, under the solver specification
+      `QuadSolverSpec K` (an explicit hypothesis `S`, to be discharged by C15): `cubic_extrema_sound`,
+      `cubic_extrema_complete`, `cubic_extrema_iff`, `cubic_extrema_sorted_le4`; without the hypothesis: `cubic_extrema_unit_sorted`
+      (inside (0,1), increasing – the filter and the sort do not depend on the solver), `sortList_spec`;
+    * `extremaRanges_tile_struct` (any `Scalar`, also `Float`), `extremaRanges_tile` (lawful),
+      `seg_extrema_ranges_tile`: the ranges are the consecutive pairs of `0, t₁, …, tₙ, 1`;
+    * `controlBox_contains_point` (convex hull property, any lawful scalar), `seg_bbox_subset_of_control`,
+      `controlBox_contains_path_bbox` (path level, for paths with at least one segment);
+    * `seg_bbox_tight`, `path_bbox_tight` (any lawful scalar, unconditional, cubics included);
+    * `line_bbox_contains` (any lawful scalar), `quad_bbox_contains` (ℝ, unconditional),
+      `seg_bbox_contains` (ℝ, all three kinds, cubics under `S`), `path_bbox_contains_boxes` (lawful),
+      `path_bbox_contains` (ℝ, under `S`);
+    * `quad_ranges_monotone`, `seg_ranges_monotone` (ℝ; cubics under `S`): on every range of `extrema_ranges`
+      each coordinate is monotone or antitone.
+
+    NOT PROVED / caveats:
+
+    * `QuadSolverSpec` itself (that `solveQuadratic` meets it) is not proved here – it is C15's theorem and needs
+      an exact square root (`Scalar.sqrt`), so it is not true for `K = ℚ`; every theorem that takes `S` is
+      conditional on it.  The theorems without `S` are unconditional.
+    * The lists are increasing in the weak sense (`≤`): a common root of x′ and y′ is listed twice (as in the crate).
+    * `controlBox_contains_path_bbox` needs "the path has a segment": for `[MoveTo p]` the model (like the crate)
+      returns the zero rectangle as bounding box but `(p,p)` as control box (example at the end).
+    * Nothing here is about `Float`: containment/tightness up to rounding is only supported by the tests. -/
+set_option linter.unusedSectionVars false
 namespace Kurbo
+
+/-- the model's literals `0` and `1` of an arbitrary (not necessarily lawful) scalar -/
+local notation "𝟘" => (@OfNat.ofNat _ 0 Kurbo.Ops.instOfNat)
+local notation "𝟙" => (@OfNat.ofNat _ 1 Kurbo.Ops.instOfNat)
+
+/-! ## 3a. the ranges tile: structural part, every `Scalar` (also `Float`) -/
+section anyScalar
+variable {K : Type} [Scalar K]
+
+/-- `extremaRangesFrom t0 [t₁,…,tₙ]` is `[t0,t₁], [t₁,t₂], …, [tₙ,1]`: it starts at `t0`, ends at `1`, consecutive
+    ranges share their end point, and there are `n + 1` of them -/
+theorem extremaRanges_tile_struct (t0 : K) (ts : List K) :
+    extremaRangesFrom t0 ts = List.zipWith Range.mk (t0 :: ts) (ts ++ [𝟙]) ∧
+    (extremaRangesFrom t0 ts).length = ts.length + 1 ∧
+    (∃ h, ((extremaRangesFrom t0 ts).head h).start = t0) ∧
+    (∃ h, ((extremaRangesFrom t0 ts).getLast h).«end» = 𝟙) ∧
+    (extremaRangesFrom t0 ts).IsChain (fun r s => r.«end» = s.start) :=
+  ⟨extremaRangesFrom_eq_zipWith t0 ts, length_extremaRangesFrom t0 ts,
+    ⟨extremaRangesFrom_ne_nil t0 ts, head_extremaRangesFrom t0 ts⟩,
+    ⟨extremaRangesFrom_ne_nil t0 ts, getLast_extremaRangesFrom t0 ts⟩, chain_extremaRangesFrom t0 ts⟩
+
+/-- `extrema_ranges` of a segment starts at the model's `0` -/
+theorem seg_extrema_ranges_struct (s : PathSeg K) :
+    s.extrema_ranges = List.zipWith Range.mk (𝟘 :: s.extrema) (s.extrema ++ [𝟙]) ∧
+    s.extrema_ranges.length = s.extrema.length + 1 :=
+  ⟨extremaRangesFrom_eq_zipWith _ _, length_extremaRangesFrom _ _⟩
+
+end anyScalar
+
+/-! ## lawful scalars (ℚ, ℝ, …) -/
+section lawful
+variable {K : Type} [Field K] [LinearOrder K] [IsStrictOrderedRing K] [FloorRing K] [Scalar K] [LawfulScalar K]
+
+/-! ### 1. extrema of a quadratic (no solver involved: unconditional) -/
+
+/-- every listed parameter is interior and a zero of x′ or of y′ -/
+theorem quad_extrema_sound (q : QuadBez K) (t : K) (h : t ∈ q.extrema) :
+    0 < t ∧ t < 1 ∧ ((q.deriv.eval t).x = 0 ∨ (q.deriv.eval t).y = 0) := by
+  rw [(quad_extrema_facts q).1] at h
+  rcases h with h | h <;> rw [mem_unitRoot] at h <;> refine ⟨h.2.1, h.2.2.1, ?_⟩
+  · left
+    rw [(quad_deriv_eval q t).1, (affine_root_iff _ _ t h.1).mpr h.2.2.2, mul_zero]
+  · right
+    rw [(quad_deriv_eval q t).2, (affine_root_iff _ _ t h.1).mpr h.2.2.2, mul_zero]
+
+/-- every interior zero of x′ (resp. y′) is listed, unless x′ (resp. y′) vanishes identically -/
+theorem quad_extrema_complete (q : QuadBez K) (t : K) (h0 : 0 < t) (h1 : t < 1)
+    (h : ((q.deriv.eval t).x = 0 ∧ ∃ u, (q.deriv.eval u).x ≠ 0) ∨
+         ((q.deriv.eval t).y = 0 ∧ ∃ u, (q.deriv.eval u).y ≠ 0)) : t ∈ q.extrema := by
+  rcases h with ⟨hz, u, hu⟩ | ⟨hz, u, hu⟩
+  · rcases quad_crit_x q t h0 h1 hz with h | h
+    · exact h
+    · exact absurd (h u) hu
+  · rcases quad_crit_y q t h0 h1 hz with h | h
+    · exact h
+    · exact absurd (h u) hu
+
+example : let q : QuadBez Rat := ⟨⟨0, 0⟩, ⟨1, 1⟩, ⟨0, 2⟩⟩
+    (0 : Rat) < 1 / 2 ∧ (1 / 2 : Rat) < 1 ∧ (q.deriv.eval (1 / 2)).x = 0 ∧ (q.deriv.eval 0).x ≠ 0 ∧
+      q.extrema = [1 / 2] := by decide +kernel
+
+/-- exact characterisation of the list as a set -/
+theorem quad_extrema_iff (q : QuadBez K) (t : K) :
+    t ∈ q.extrema ↔ 0 < t ∧ t < 1 ∧
+      (((q.deriv.eval t).x = 0 ∧ ∃ u, (q.deriv.eval u).x ≠ 0) ∨
+       ((q.deriv.eval t).y = 0 ∧ ∃ u, (q.deriv.eval u).y ≠ 0)) := by
+  constructor
+  · intro h
+    have hs := quad_extrema_sound q t h
+    refine ⟨hs.1, hs.2.1, ?_⟩
+    rw [(quad_extrema_facts q).1] at h
+    rcases h with h | h <;> rw [mem_unitRoot] at h
+    · left
+      refine ⟨?_, ?_⟩
+      · rw [(quad_deriv_eval q t).1, (affine_root_iff _ _ t h.1).mpr h.2.2.2, mul_zero]
+      · by_contra hall
+        simp only [not_exists, not_not] at hall
+        have a0 := hall 0
+        have a1 := hall 1
+        rw [(quad_deriv_eval q _).1] at a0 a1
+        exact h.1 (by linear_combination (1 / 2 : K) * a1 - (1 / 2 : K) * a0)
+    · right
+      refine ⟨?_, ?_⟩
+      · rw [(quad_deriv_eval q t).2, (affine_root_iff _ _ t h.1).mpr h.2.2.2, mul_zero]
+      · by_contra hall
+        simp only [not_exists, not_not] at hall
+        have a0 := hall 0
+        have a1 := hall 1
+        rw [(quad_deriv_eval q _).2] at a0 a1
+        exact h.1 (by linear_combination (1 / 2 : K) * a1 - (1 / 2 : K) * a0)
+  · rintro ⟨h0, h1, h⟩
+    exact quad_extrema_complete q t h0 h1 h
+
+/-- increasing order, at most two -/
+theorem quad_extrema_sorted_le2 (q : QuadBez K) : q.extrema.Pairwise (· ≤ ·) ∧ q.extrema.length ≤ 2 :=
+  (quad_extrema_facts q).2
+
+-- both coordinates contribute, the y-root is smaller and is moved to the front
+example : (⟨⟨0, 0⟩, ⟨3, 1⟩, ⟨2, -2⟩⟩ : QuadBez Rat).extrema = [1 / 4, 3 / 4] := by decide +kernel
+
+/-! ### 2. extrema of a cubic (through `solveQuadratic`: under `QuadSolverSpec`) -/
+
+/-- the sort used by `CubicBez.extrema` is a sort: it permutes its input into increasing order -/
+theorem sortList_spec (l : List K) : (sortList l).Perm l ∧ (sortList l).Pairwise (· ≤ ·) :=
+  ⟨sortList_perm l, sortList_sorted l⟩
+
+/-- independent of the solver: every listed parameter is interior, and the list is increasing -/
+theorem cubic_extrema_unit_sorted (c : CubicBez K) :
+    (∀ t ∈ c.extrema, 0 < t ∧ t < 1) ∧ c.extrema.Pairwise (· ≤ ·) :=
+  ⟨fun t h => seg_extrema_unit (.Cubic c) t h, seg_extrema_sorted (.Cubic c)⟩
+
+/-- every listed parameter is interior and a zero of x′ or of y′ -/
+theorem cubic_extrema_sound (S : QuadSolverSpec K) (c : CubicBez K) (t : K) (h : t ∈ c.extrema) :
+    0 < t ∧ t < 1 ∧ ((c.deriv.eval t).x = 0 ∨ (c.deriv.eval t).y = 0) := by
+  rw [mem_cubic_extrema] at h
+  rcases h with h | h
+  · obtain ⟨h0, h1, hz⟩ := cubicOneCoord_sound S _ _ _ t h
+    exact ⟨h0, h1, Or.inl (by rw [(cubic_deriv_eval c t).1, hz, mul_zero])⟩
+  · obtain ⟨h0, h1, hz⟩ := cubicOneCoord_sound S _ _ _ t h
+    exact ⟨h0, h1, Or.inr (by rw [(cubic_deriv_eval c t).2, hz, mul_zero])⟩
+
+/-- every interior zero of x′ (resp. y′) is listed, unless x′ (resp. y′) vanishes identically -/
+theorem cubic_extrema_complete (S : QuadSolverSpec K) (c : CubicBez K) (t : K) (h0 : 0 < t) (h1 : t < 1)
+    (h : ((c.deriv.eval t).x = 0 ∧ ∃ u, (c.deriv.eval u).x ≠ 0) ∨
+         ((c.deriv.eval t).y = 0 ∧ ∃ u, (c.deriv.eval u).y ≠ 0)) : t ∈ c.extrema := by
+  rcases h with ⟨hz, u, hu⟩ | ⟨hz, u, hu⟩
+  · rcases cubic_crit_x S c t h0 h1 hz with h | h
+    · exact h
+    · exact absurd (h u) hu
+  · rcases cubic_crit_y S c t h0 h1 hz with h | h
+    · exact h
+    · exact absurd (h u) hu
+
+/-- exact characterisation of the list as a set -/
+theorem cubic_extrema_iff (S : QuadSolverSpec K) (c : CubicBez K) (t : K) :
+    t ∈ c.extrema ↔ 0 < t ∧ t < 1 ∧
+      (((c.deriv.eval t).x = 0 ∧ ∃ u, (c.deriv.eval u).x ≠ 0) ∨
+       ((c.deriv.eval t).y = 0 ∧ ∃ u, (c.deriv.eval u).y ≠ 0)) := by
+  constructor
+  · intro h
+    rw [mem_cubic_extrema] at h
+    rcases h with h | h
+    · obtain ⟨h0, h1, hz⟩ := cubicOneCoord_sound S _ _ _ t h
+      refine ⟨h0, h1, Or.inl ⟨by rw [(cubic_deriv_eval c t).1, hz, mul_zero], ?_⟩⟩
+      by_contra hall
+      simp only [not_exists, not_not] at hall
+      have hz := quadpoly_zero _ _ _ (fun u => by rw [← (cubic_deriv_eval c u).1]; exact hall u)
+      rcases cubicOneCoord_nonzero S _ _ _ t h with e | e | e
+      · exact e hz.1
+      · exact e hz.2.1
+      · exact e hz.2.2
+    · obtain ⟨h0, h1, hz⟩ := cubicOneCoord_sound S _ _ _ t h
+      refine ⟨h0, h1, Or.inr ⟨by rw [(cubic_deriv_eval c t).2, hz, mul_zero], ?_⟩⟩
+      by_contra hall
+      simp only [not_exists, not_not] at hall
+      have hz := quadpoly_zero _ _ _ (fun u => by rw [← (cubic_deriv_eval c u).2]; exact hall u)
+      rcases cubicOneCoord_nonzero S _ _ _ t h with e | e | e
+      · exact e hz.1
+      · exact e hz.2.1
+      · exact e hz.2.2
+  · rintro ⟨h0, h1, h⟩
+    exact cubic_extrema_complete S c t h0 h1 h
+
+/-- increasing order, at most four -/
+theorem cubic_extrema_sorted_le4 (S : QuadSolverSpec K) (c : CubicBez K) :
+    c.extrema.Pairwise (· ≤ ·) ∧ c.extrema.length ≤ 4 := by
+  refine ⟨(cubic_extrema_unit_sorted c).2, ?_⟩
+  rw [cubic_extrema_eq, length_sortList, List.length_append]
+  have h1 := cubicOneCoord_length S (c.p1.x - c.p0.x) (c.p2.x - c.p1.x) (c.p3.x - c.p2.x)
+  have h2 := cubicOneCoord_length S (c.p1.y - c.p0.y) (c.p2.y - c.p1.y) (c.p3.y - c.p2.y)
+  omega
+
+-- `QuadSolverSpec` is C15's theorem about `solveQuadratic` (it needs an exact `Scalar.sqrt`, so it is a statement
+-- about ℝ-like scalars, not about ℚ); on inputs where the rational square root is exact the model over ℚ agrees
+-- with each of its clauses:
+example : solveQuadratic (3 : Rat) (-16) 16 = [1 / 4, 3 / 4] ∧ solveQuadratic (2 : Rat) (-4) 0 = [-2 / -4] ∧
+    solveQuadratic (0 : Rat) 0 0 = [0] ∧ solveQuadratic (1 : Rat) 0 0 = [] := by decide +kernel
+
+-- a cubic over ℚ on which the model's solver is exact: x′ is linear (root 1/2), y′ has the roots 1/4 and 3/4
+example : let c : CubicBez Rat := ⟨⟨0, 0⟩, ⟨2, 3⟩, ⟨2, -2⟩, ⟨0, 1⟩⟩
+    c.extrema = [1 / 4, 1 / 2, 3 / 4] ∧ (c.deriv.eval (1 / 2)).x = 0 ∧ (c.deriv.eval (1 / 4)).y = 0 ∧
+      (c.deriv.eval (3 / 4)).y = 0 ∧ (c.deriv.eval 0).x ≠ 0 ∧ (c.deriv.eval 0).y ≠ 0 := by decide +kernel
+
+/-! ### 3b. the ranges tile `[0,1]` -/
+
+/-- for an increasing list inside `(0,1)`: the ranges are the consecutive pairs of `0, t₁, …, tₙ, 1`, each range is
+    ordered and inside `[0,1]`, and no listed parameter lies strictly inside a range -/
+theorem extremaRanges_tile (ts : List K) (hunit : ∀ t ∈ ts, 0 < t ∧ t < 1) (hs : ts.Pairwise (· ≤ ·)) :
+    extremaRangesFrom 0 ts = List.zipWith Range.mk (0 :: ts) (ts ++ [1]) ∧
+    (extremaRangesFrom 0 ts).length = ts.length + 1 ∧
+    (extremaRangesFrom 0 ts).IsChain (fun r s => r.«end» = s.start) ∧
+    (∀ r ∈ extremaRangesFrom 0 ts, 0 ≤ r.start ∧ r.start ≤ r.«end» ∧ r.«end» ≤ 1) ∧
+    (∀ r ∈ extremaRangesFrom 0 ts, ∀ t ∈ ts, ¬ (r.start < t ∧ t < r.«end»)) := by
+  refine ⟨?_, length_extremaRangesFrom _ _, chain_extremaRangesFrom _ _, ?_, ?_⟩
+  · have h := extremaRangesFrom_eq_zipWith (0 : K) ts
+    simp only [scalar_norm] at h; push_cast at h; exact h
+  · exact extremaRangesFrom_ordered 0 ts (fun t ht => (hunit t ht).1.le) zero_le_one hs
+      (fun t ht => (hunit t ht).2.le)
+  · intro r hr
+    exact (extremaRangesFrom_gap 0 ts (fun t ht => (hunit t ht).1.le) hs r hr).2
+
+example : (∀ t ∈ ([1 / 4, 1 / 2] : List Rat), 0 < t ∧ t < 1) ∧ ([1 / 4, 1 / 2] : List Rat).Pairwise (· ≤ ·) := by
+  constructor
+  · intro t ht; simp only [List.mem_cons, List.not_mem_nil, or_false] at ht
+    rcases ht with rfl | rfl <;> norm_num
+  · simp; norm_num
+
+/-- the same for the ranges of a segment; needs no hypothesis (the extrema of every segment are increasing and
+    interior, also for cubics, whatever the solver returns) -/
+theorem seg_extrema_ranges_tile (s : PathSeg K) :
+    s.extrema_ranges = List.zipWith Range.mk (0 :: s.extrema) (s.extrema ++ [1]) ∧
+    s.extrema_ranges.length = s.extrema.length + 1 ∧
+    s.extrema_ranges.IsChain (fun r s => r.«end» = s.start) ∧
+    (∀ r ∈ s.extrema_ranges, 0 ≤ r.start ∧ r.start ≤ r.«end» ∧ r.«end» ≤ 1) ∧
+    (∀ r ∈ s.extrema_ranges, ∀ t ∈ s.extrema, ¬ (r.start < t ∧ t < r.«end»)) := by
+  rw [seg_extrema_ranges_eq]
+  exact extremaRanges_tile s.extrema (seg_extrema_unit s) (seg_extrema_sorted s)
+
+/-! ### 6. the control polygon's box contains the curve -/
+
+/-- every point of a segment whose control points all lie in a closed box lies in that box -/
+theorem controlBox_contains_point (r : Rect K) (s : PathSeg K) (h : ∀ p ∈ s.controlPoints, r.ContainsClosed p)
+    (t : K) (ht0 : 0 ≤ t) (ht1 : t ≤ 1) : r.ContainsClosed (s.eval t) :=
+  seg_eval_in_box r s h t ht0 ht1
+
+example : let r : Rect Rat := ⟨0, -2, 2, 3⟩
+    ∀ p ∈ (PathSeg.Cubic (⟨⟨0, 0⟩, ⟨2, 3⟩, ⟨2, -2⟩, ⟨0, 1⟩⟩ : CubicBez Rat)).controlPoints, r.ContainsClosed p := by
+  intro r p hp
+  simp only [PathSeg.controlPoints, List.mem_cons, List.not_mem_nil, or_false] at hp
+  rcases hp with rfl | rfl | rfl | rfl <;> (unfold Rect.ContainsClosed; norm_num)
+
+/-! ### 5. the box of a segment is tight (unconditional, cubics included) -/
+
+/-- each of the four sides of `bounding_box` is touched by the curve at some parameter of `[0,1]` -/
+theorem seg_bbox_tight (s : PathSeg K) :
+    (∃ t, 0 ≤ t ∧ t ≤ 1 ∧ (s.eval t).x = s.bounding_box.x0) ∧
+    (∃ t, 0 ≤ t ∧ t ≤ 1 ∧ (s.eval t).y = s.bounding_box.y0) ∧
+    (∃ t, 0 ≤ t ∧ t ≤ 1 ∧ (s.eval t).x = s.bounding_box.x1) ∧
+    (∃ t, 0 ≤ t ∧ t ≤ 1 ∧ (s.eval t).y = s.bounding_box.y1) := by
+  rw [seg_bounding_box_eq]
+  exact fold_box_tight (fun t => s.eval t) s.extrema (seg_extrema_unit s)
+
+/-- hence the box of a segment lies inside every closed box that contains its control points -/
+theorem seg_bbox_subset_of_control (r : Rect K) (s : PathSeg K) (h : ∀ p ∈ s.controlPoints, r.ContainsClosed p) :
+    r.ContainsRectP s.bounding_box := by
+  obtain ⟨⟨t1, a1, b1, e1⟩, ⟨t2, a2, b2, e2⟩, ⟨t3, a3, b3, e3⟩, ⟨t4, a4, b4, e4⟩⟩ := seg_bbox_tight s
+  have c1 := seg_eval_in_box r s h t1 a1 b1
+  have c2 := seg_eval_in_box r s h t2 a2 b2
+  have c3 := seg_eval_in_box r s h t3 a3 b3
+  have c4 := seg_eval_in_box r s h t4 a4 b4
+  exact ⟨e1 ▸ c1.1, e2 ▸ c2.2.2.1, e3 ▸ c3.2.1, e4 ▸ c4.2.2.2⟩
+
+/-! ### 4a. containment for lines (convexity; any lawful scalar) -/
+
+theorem line_bbox_contains (l : Line K) (t : K) (ht0 : 0 ≤ t) (ht1 : t ≤ 1) :
+    (PathSeg.Line l).bounding_box.ContainsClosed ((PathSeg.Line l).eval t) :=
+  line_bbox_contains_aux l t ht0 ht1
+
+/-! ### 7a. path level, algebraic part -/
+
+/-- the box of a path contains the box of each of its segments -/
+theorem path_bbox_contains_boxes (els : List (PathEl K)) (ss : List (PathSeg K)) (bb : Rect K)
+    (hs : segs els = some ss) (hb : pathBoundingBox els = some bb) :
+    ∀ s ∈ ss, bb.ContainsRectP s.bounding_box := by
+  unfold pathBoundingBox at hb
+  rw [hs] at hb
+  simp only [Option.map_some, Option.some.injEq] at hb
+  cases ss with
+  | nil => simp
+  | cons s0 rest =>
+    simp only at hb
+    subst hb
+    obtain ⟨h1, h2⟩ := foldl_union_contains (fun t : PathSeg K => t.bounding_box) rest s0.bounding_box
+    intro s hs
+    rcases List.mem_cons.mp hs with rfl | hs
+    · exact h1
+    · exact h2 s hs
+
+/-- the box of a path with at least one segment is tight: each side is touched by one of its segments -/
+theorem path_bbox_tight (els : List (PathEl K)) (ss : List (PathSeg K)) (bb : Rect K)
+    (hs : segs els = some ss) (hne : ss ≠ []) (hb : pathBoundingBox els = some bb) :
+    (∃ s ∈ ss, ∃ t, 0 ≤ t ∧ t ≤ 1 ∧ (s.eval t).x = bb.x0) ∧
+    (∃ s ∈ ss, ∃ t, 0 ≤ t ∧ t ≤ 1 ∧ (s.eval t).y = bb.y0) ∧
+    (∃ s ∈ ss, ∃ t, 0 ≤ t ∧ t ≤ 1 ∧ (s.eval t).x = bb.x1) ∧
+    (∃ s ∈ ss, ∃ t, 0 ≤ t ∧ t ≤ 1 ∧ (s.eval t).y = bb.y1) := by
+  unfold pathBoundingBox at hb
+  rw [hs] at hb
+  simp only [Option.map_some, Option.some.injEq] at hb
+  cases ss with
+  | nil => exact absurd rfl hne
+  | cons s0 rest =>
+    simp only at hb
+    subst hb
+    obtain ⟨h1, h2, h3, h4⟩ := foldl_union_attained (fun t : PathSeg K => t.bounding_box) rest s0.bounding_box
+    refine ⟨?_, ?_, ?_, ?_⟩
+    · rcases h1 with h | ⟨s, hs, h⟩
+      · obtain ⟨t, a, b, e⟩ := (seg_bbox_tight s0).1
+        exact ⟨s0, by simp, t, a, b, e.trans h.symm⟩
+      · obtain ⟨t, a, b, e⟩ := (seg_bbox_tight s).1
+        exact ⟨s, by simp [hs], t, a, b, e.trans h.symm⟩
+    · rcases h2 with h | ⟨s, hs, h⟩
+      · obtain ⟨t, a, b, e⟩ := (seg_bbox_tight s0).2.1
+        exact ⟨s0, by simp, t, a, b, e.trans h.symm⟩
+      · obtain ⟨t, a, b, e⟩ := (seg_bbox_tight s).2.1
+        exact ⟨s, by simp [hs], t, a, b, e.trans h.symm⟩
+    · rcases h3 with h | ⟨s, hs, h⟩
+      · obtain ⟨t, a, b, e⟩ := (seg_bbox_tight s0).2.2.1
+        exact ⟨s0, by simp, t, a, b, e.trans h.symm⟩
+      · obtain ⟨t, a, b, e⟩ := (seg_bbox_tight s).2.2.1
+        exact ⟨s, by simp [hs], t, a, b, e.trans h.symm⟩
+    · rcases h4 with h | ⟨s, hs, h⟩
+      · obtain ⟨t, a, b, e⟩ := (seg_bbox_tight s0).2.2.2
+        exact ⟨s0, by simp, t, a, b, e.trans h.symm⟩
+      · obtain ⟨t, a, b, e⟩ := (seg_bbox_tight s).2.2.2
+        exact ⟨s, by simp [hs], t, a, b, e.trans h.symm⟩
+
+/-- `control_box` contains every control point of every segment of the path … -/
+theorem controlBox_contains_control_points (els : List (PathEl K)) (ss : List (PathSeg K)) (hs : segs els = some ss) :
+    ∀ s ∈ ss, ∀ p ∈ s.controlPoints, (controlBox els).ContainsClosed p :=
+  segs_pts (fun p => (controlBox els).ContainsClosed p) els ss hs (controlBox_contains_elPoints els)
+
+/-- … hence every point of the path … -/
+theorem controlBox_contains_path_point (els : List (PathEl K)) (ss : List (PathSeg K)) (hs : segs els = some ss)
+    (s : PathSeg K) (hmem : s ∈ ss) (t : K) (ht0 : 0 ≤ t) (ht1 : t ≤ 1) :
+    (controlBox els).ContainsClosed (s.eval t) :=
+  seg_eval_in_box _ s (controlBox_contains_control_points els ss hs s hmem) t ht0 ht1
+
+/-- … and the bounding box of the path, provided the path has a segment -/
+theorem controlBox_contains_path_bbox (els : List (PathEl K)) (ss : List (PathSeg K)) (bb : Rect K)
+    (hs : segs els = some ss) (hne : ss ≠ []) (hb : pathBoundingBox els = some bb) :
+    (controlBox els).ContainsRectP bb := by
+  have hseg : ∀ s ∈ ss, (controlBox els).ContainsRectP s.bounding_box := fun s hmem =>
+    seg_bbox_subset_of_control _ s (controlBox_contains_control_points els ss hs s hmem)
+  unfold pathBoundingBox at hb
+  rw [hs] at hb
+  simp only [Option.map_some, Option.some.injEq] at hb
+  cases ss with
+  | nil => exact absurd rfl hne
+  | cons s0 rest =>
+    simp only at hb
+    subst hb
+    exact foldl_union_least (fun t : PathSeg K => t.bounding_box) rest s0.bounding_box _
+      (hseg s0 (by simp)) (fun s hmem => hseg s (by simp [hmem]))
+
+-- hypotheses are satisfiable …
+example : let els : List (PathEl Rat) := [.MoveTo ⟨0, 0⟩, .QuadTo ⟨1, 1⟩ ⟨0, 2⟩, .LineTo ⟨3, 3⟩]
+    segs els = some [.Quad ⟨⟨0, 0⟩, ⟨1, 1⟩, ⟨0, 2⟩⟩, .Line ⟨⟨0, 2⟩, ⟨3, 3⟩⟩] ∧
+    pathBoundingBox els = some ⟨0, 0, 3, 3⟩ ∧ controlBox els = ⟨0, 0, 3, 3⟩ := by decide +kernel
+-- … and `ss ≠ []` cannot be dropped: a lone `MoveTo` has the zero rectangle as bounding box
+example : let els : List (PathEl Rat) := [.MoveTo ⟨5, 5⟩]
+    segs els = some [] ∧ pathBoundingBox els = some ⟨0, 0, 0, 0⟩ ∧ controlBox els = ⟨5, 5, 5, 5⟩ := by decide +kernel
+
+end lawful
+
+/-! ## ℝ: containment and monotone ranges (analysis) -/
+section real
+variable [Scalar ℝ] [LawfulScalar ℝ]
+
+/-! ### 4b. the box contains the curve -/
+
+/-- quadratics: unconditional -/
+theorem quad_bbox_contains (q : QuadBez ℝ) (t : ℝ) (ht : t ∈ Set.Icc (0:ℝ) 1) :
+    (PathSeg.Quad q).bounding_box.ContainsClosed ((PathSeg.Quad q).eval t) :=
+  quad_bbox_contains_aux q t ht
+
+/-- every segment; only the cubic case uses the solver specification -/
+theorem seg_bbox_contains (S : QuadSolverSpec ℝ) (s : PathSeg ℝ) (t : ℝ) (ht : t ∈ Set.Icc (0:ℝ) 1) :
+    s.bounding_box.ContainsClosed (s.eval t) := by
+  cases s with
+  | Line l => exact line_bbox_contains_aux l t ht.1 ht.2
+  | Quad q => exact quad_bbox_contains_aux q t ht
+  | Cubic c => exact cubic_bbox_contains_aux S c t ht
+
+/-- segments that are not cubics: unconditional -/
+theorem seg_bbox_contains_noncubic (s : PathSeg ℝ) (hs : ∀ c, s ≠ .Cubic c) (t : ℝ) (ht : t ∈ Set.Icc (0:ℝ) 1) :
+    s.bounding_box.ContainsClosed (s.eval t) := by
+  cases s with
+  | Line l => exact line_bbox_contains_aux l t ht.1 ht.2
+  | Quad q => exact quad_bbox_contains_aux q t ht
+  | Cubic c => exact absurd rfl (hs c)
+
+/-! ### 7b. the box of a path contains every point of every segment -/
+
+theorem path_bbox_contains (S : QuadSolverSpec ℝ) (els : List (PathEl ℝ)) (ss : List (PathSeg ℝ)) (bb : Rect ℝ)
+    (hs : segs els = some ss) (hb : pathBoundingBox els = some bb) (s : PathSeg ℝ) (hmem : s ∈ ss)
+    (t : ℝ) (ht : t ∈ Set.Icc (0:ℝ) 1) : bb.ContainsClosed (s.eval t) :=
+  (path_bbox_contains_boxes els ss bb hs hb s hmem).closed (seg_bbox_contains S s t ht)
+
+/-! ### the ranges between extrema are monotone in both coordinates -/
+
+theorem quad_ranges_monotone (q : QuadBez ℝ) :
+    ∀ r ∈ (PathSeg.Quad q).extrema_ranges,
+      (MonotoneOn (fun t => (q.eval t).x) (Set.Icc r.start r.«end») ∨
+        AntitoneOn (fun t => (q.eval t).x) (Set.Icc r.start r.«end»)) ∧
+      (MonotoneOn (fun t => (q.eval t).y) (Set.Icc r.start r.«end») ∨
+        AntitoneOn (fun t => (q.eval t).y) (Set.Icc r.start r.«end»)) := by
+  intro r hr
+  rw [seg_extrema_ranges_eq] at hr
+  exact ⟨ranges_mono_aux (fun t => (quad_deriv_hasDerivAt q t).1) (quad_deriv_continuous q).1 q.extrema
+      (seg_extrema_unit (.Quad q)) (seg_extrema_sorted (.Quad q)) (quad_crit_x q) r hr,
+    ranges_mono_aux (fun t => (quad_deriv_hasDerivAt q t).2) (quad_deriv_continuous q).2 q.extrema
+      (seg_extrema_unit (.Quad q)) (seg_extrema_sorted (.Quad q)) (quad_crit_y q) r hr⟩
+
+theorem seg_ranges_monotone (S : QuadSolverSpec ℝ) (s : PathSeg ℝ) :
+    ∀ r ∈ s.extrema_ranges,
+      (MonotoneOn (fun t => (s.eval t).x) (Set.Icc r.start r.«end») ∨
+        AntitoneOn (fun t => (s.eval t).x) (Set.Icc r.start r.«end»)) ∧
+      (MonotoneOn (fun t => (s.eval t).y) (Set.Icc r.start r.«end») ∨
+        AntitoneOn (fun t => (s.eval t).y) (Set.Icc r.start r.«end»)) := by
+  cases s with
+  | Line l =>
+    intro r hr
+    rw [seg_extrema_ranges_eq] at hr
+    exact ⟨monoOn_or_antiOn (f' := fun _ => l.p1.x - l.p0.x) (fun t => (line_hasDerivAt l t).1) continuous_const _ _
+        (by by_cases h : l.p1.x - l.p0.x = 0
+            · exact Or.inl fun _ => h
+            · exact Or.inr fun _ _ _ => h),
+      monoOn_or_antiOn (f' := fun _ => l.p1.y - l.p0.y) (fun t => (line_hasDerivAt l t).2) continuous_const _ _
+        (by by_cases h : l.p1.y - l.p0.y = 0
+            · exact Or.inl fun _ => h
+            · exact Or.inr fun _ _ _ => h)⟩
+  | Quad q => exact quad_ranges_monotone q
+  | Cubic c =>
+    intro r hr
+    rw [seg_extrema_ranges_eq] at hr
+    exact ⟨ranges_mono_aux (fun t => (cubic_deriv_hasDerivAt c t).1) (cubic_deriv_continuous c).1 c.extrema
+        (seg_extrema_unit (.Cubic c)) (seg_extrema_sorted (.Cubic c)) (cubic_crit_x S c) r hr,
+      ranges_mono_aux (fun t => (cubic_deriv_hasDerivAt c t).2) (cubic_deriv_continuous c).2 c.extrema
+        (seg_extrema_unit (.Cubic c)) (seg_extrema_sorted (.Cubic c)) (cubic_crit_y S c) r hr⟩
+
+end real
+end Kurbo
+
+/-! ### unconditional forms over ℝ: `QuadSolverSpec ℝ` is the C15 theorem `solveQuadratic_spec_real`
+    (`Proofs/Lemmas/Discharge.lean`), so with the real square-root law no hypothesis is left -/
+namespace Kurbo
+section discharged
+variable [Scalar ℝ] [LawfulScalar ℝ] [LawfulReal]
+
+theorem cubic_extrema_iff_real (c : CubicBez ℝ) (t : ℝ) :
+    t ∈ c.extrema ↔ 0 < t ∧ t < 1 ∧
+      (((c.deriv.eval t).x = 0 ∧ ∃ u, (c.deriv.eval u).x ≠ 0) ∨
+       ((c.deriv.eval t).y = 0 ∧ ∃ u, (c.deriv.eval u).y ≠ 0)) :=
+  cubic_extrema_iff quadSolverSpec_real c t
+
+theorem cubic_extrema_sorted_le4_real (c : CubicBez ℝ) : c.extrema.Pairwise (· ≤ ·) ∧ c.extrema.length ≤ 4 :=
+  cubic_extrema_sorted_le4 quadSolverSpec_real c
+
+/-- the bounding box of every segment contains every point of it -/
+theorem seg_bbox_contains_real (s : PathSeg ℝ) (t : ℝ) (ht : t ∈ Set.Icc (0:ℝ) 1) :
+    s.bounding_box.ContainsClosed (s.eval t) :=
+  seg_bbox_contains quadSolverSpec_real s t ht
+
+/-- the bounding box of a path contains every point of every segment -/
+theorem path_bbox_contains_real (els : List (PathEl ℝ)) (ss : List (PathSeg ℝ)) (bb : Rect ℝ)
+    (hs : segs els = some ss) (hb : pathBoundingBox els = some bb) (s : PathSeg ℝ) (hmem : s ∈ ss)
+    (t : ℝ) (ht : t ∈ Set.Icc (0:ℝ) 1) : bb.ContainsClosed (s.eval t) :=
+  path_bbox_contains quadSolverSpec_real els ss bb hs hb s hmem t ht
+
+/-- on every range between reported extrema both coordinates are monotone or antitone -/
+theorem seg_ranges_monotone_real (s : PathSeg ℝ) :
+    ∀ r ∈ s.extrema_ranges,
+      (MonotoneOn (fun t => (s.eval t).x) (Set.Icc r.start r.«end») ∨
+        AntitoneOn (fun t => (s.eval t).x) (Set.Icc r.start r.«end»)) ∧
+      (MonotoneOn (fun t => (s.eval t).y) (Set.Icc r.start r.«end») ∨
+        AntitoneOn (fun t => (s.eval t).y) (Set.Icc r.start r.«end»)) :=
+  seg_ranges_monotone quadSolverSpec_real s
+
+/-- the hypotheses are satisfiable: ℝ with the Mathlib functions -/
+example : ∃ (_ : Scalar ℝ) (_ : LawfulScalar ℝ), LawfulReal := ⟨realScalar, realScalar_lawful, realScalar_lawfulReal⟩
+
+end discharged
 end Kurbo
